@@ -70,6 +70,7 @@ class DateTimeZone(abc.ABC, _IZoneIntervalMap, metaclass=_DateTimeZoneMeta):
     # _FixedDateTimeZone inside this class body, which is impossible in Python. This cache is only used by the
     # `for_offset()` classmethod, so we just call `__build_fixed_zone_cache()` there instead.
     __fixed_zone_cache: list[DateTimeZone] | None = None
+    __fixed_zone_cache_lock: Final[threading.Lock] = threading.Lock()
 
     @classmethod
     def for_offset(cls, offset: Offset) -> DateTimeZone:
@@ -87,7 +88,9 @@ class DateTimeZone(abc.ABC, _IZoneIntervalMap, metaclass=_DateTimeZoneMeta):
         """
         # Unlike in Noda Time, build the cache if it is empty.
         if not cls.__fixed_zone_cache:
-            cls.__fixed_zone_cache = cls.__build_fixed_zone_cache()
+            with cls.__fixed_zone_cache_lock:
+                if not cls.__fixed_zone_cache:
+                    cls.__fixed_zone_cache = cls.__build_fixed_zone_cache()
 
         from .time_zones._fixed_date_time_zone import _FixedDateTimeZone
 
